@@ -10,7 +10,11 @@ joints are inside their ranges and whose equalities are inactive has nefc == 0.
   state(mjm, info, rng, kind)          -> per-world state dict (kinds: rest, free, eqonly, bounce)
   classify(mjm, st)                    -> (nefc, ncon, ok) of MuJoCo on that state
   write_worlds(d, which, states)       -> per-world rewrite of qpos/qvel/eq_active through the public arrays
+  toggle_eq(d, which, values)          -> eq_active of single worlds only
   reset_worlds(m, d, which)            -> mjw.reset_data with a per-world mask
+  reset_key_worlds(m, d, which)        -> mjw.reset_data_keyframe with a per-world key array (keyframe 0 of a scene is the
+                                          opposite placement of qpos0: bodies on the floor if qpos0 has them lifted, and
+                                          vice versa)
 """
 
 import mujoco
@@ -37,7 +41,7 @@ def scene(rng, cone, solver, jac, condims=(1, 3, 4, 6)):
   flag = '<flag warmstart="disable"/>' if rng.random() < 0.25 else ""
   out = ["<mujoco>", f'  <option timestep="{ts}" cone="{cone}" solver="{solver}" jacobian="{jac}"{imp}>{flag}</option>', '  <compiler angle="radian"/>', "  <worldbody>"]
   out.append(f'    <geom name="floor" type="plane" size="0 0 1" condim="{condims[rng.integers(len(condims))]}" friction="{_f([rng.uniform(0.3, 1.2), 0.01, 0.002])}"/>')
-  half, rest_xy = [], []
+  half, rest_xy, key_qpos = [], [], []
   for i in range(nb):
     k = KINDS[rng.integers(len(KINDS))]
     r = rng.uniform(0.06, 0.12)
@@ -53,6 +57,8 @@ def scene(rng, cone, solver, jac, condims=(1, 3, 4, 6)):
     xy = np.array([i * rng.uniform(0.12, 0.3), rng.normal() * 0.03])
     rest_xy.append(xy)
     z = (1.0 + 0.5 * i) if lifted0 else h * rng.uniform(0.97, 1.0)
+    # keyframe 0 is the opposite placement of qpos0: on the floor if qpos0 is lifted, lifted and apart if qpos0 rests
+    key_qpos += [xy[0], xy[1], h * 0.985, 1, 0, 0, 0] if lifted0 else [i * 0.6, 0.0, 1.0 + 0.5 * i, 1, 0, 0, 0]
     cd = condims[rng.integers(len(condims))]
     fr = _f([rng.uniform(0.2, 1.5), rng.uniform(0.002, 0.02), rng.uniform(0.0005, 0.01)])
     mg = f' margin="{_f(rng.uniform(0.001, 0.02))}"' if rng.random() < 0.3 else ""
@@ -98,6 +104,7 @@ def scene(rng, cone, solver, jac, condims=(1, 3, 4, 6)):
     c = " ".join(f'<joint joint="a{k}" coef="{_f(rng.uniform(0.5, 1.5) * rng.choice([-1, 1]))}"/>' for k in range(narm))
     out.append(f'    <fixed name="t0" limited="true" range="{_f([-rng.uniform(0.05, 0.3), rng.uniform(0.05, 0.3)])}">{c}</fixed>')
     out.append("  </tendon>")
+  out.append(f'  <keyframe><key name="other" qpos="{_f(key_qpos + [0.0] * narm)}"/></keyframe>')
   out.append("</mujoco>")
   info = {"nb": nb, "half": half, "rest_xy": [v.tolist() for v in rest_xy], "lifted0": lifted0, "narm": narm, "eq": eq, "weld": weld}
   return "\n".join(out), info
@@ -217,6 +224,19 @@ def toggle_eq(d, which, values):
   for w, v in zip(which, values):
     ea[w] = v
   wp.copy(d.eq_active, wp.array(ea, dtype=bool))
+
+
+def reset_key_worlds(m, d, which, key=0):
+  """mjw.reset_data_keyframe with a per-world key array (-1 = leave that world alone)."""
+  import warp as wp
+
+  import mujoco_warp as mjw
+
+  if not which:
+    return
+  keys = -np.ones(d.nworld, dtype=np.int32)
+  keys[list(which)] = key
+  mjw.reset_data_keyframe(m, d, wp.array(keys, dtype=int))
 
 
 def reset_worlds(m, d, which):
